@@ -307,12 +307,12 @@ def initialBlobs (fx : Fixed) : List Bytes :=
 takes its longest form (five bytes) -/
 def bigOffs (n : Nat) : List Int := (List.range (n + 1)).map fun (i : Nat) => ((i : Int) + 1) * 65536
 
-/-- Fuel for the loop `for { …; if done { break } }`, which has no bound in the Go code: the
-position of the last section when every offset operand has its longest form, plus one.  Every
-pass but the last moves the last section forward by at least one byte and it cannot pass that
-position (`C13_write_converges`), so the fuel is never used up. -/
-def writeFuel (std : List String) (isCID : Bool) (fx : Fixed) (sc : Secs) : Nat :=
-  ((mkBlobs std isCID fx sc (bigOffs sc.num)).take (sc.num - 1)).flatten.length + 1
+/-- Fuel for the loop `for { …; if done { break } }`, which has no bound in the Go code.  Only the
+offset operands can grow from pass to pass (at most four bytes each: seven in the Top DICT, two in
+every Font DICT, one in every Private DICT) and the offSize bytes of two INDEXes; every pass but
+the last moves the last section by at least one byte, so `39 + 15·(number of private DICTs)` passes
+suffice (`C13_write_converges`) and the fuel is never used up. -/
+def writeFuel (fx : Fixed) : Nat := 40 + 15 * fx.privBase.length
 
 /-- `(*Font).Write` after `encodeCharStrings`: the file, and the number of loop passes -/
 def writeFont (std : List String) (f : FontIn) : Outcome (Bytes × Nat) :=
@@ -320,7 +320,7 @@ def writeFont (std : List String) (f : FontIn) : Outcome (Bytes × Nat) :=
   | .err x => .err x
   | .panic s => .panic s
   | .ok (fx, sc) =>
-    match writeLoop (mkBlobs std f.ros.isSome fx sc) sc.num (writeFuel std f.ros.isSome fx sc) (cumsum (initialBlobs fx)) 0 with
+    match writeLoop (mkBlobs std f.ros.isSome fx sc) sc.num (writeFuel fx) (cumsum (initialBlobs fx)) 0 with
     | some (blobs, offs, k) =>
       if mkBlobsFits std f.ros.isSome fx sc offs then .ok (blobs.flatten, k)
       else .panic "cff: too much data for INDEX"
